@@ -1142,6 +1142,96 @@ fn full_ranking(reader: &IndexReader, q: &Value) -> Result<Vec<(String, f32)>, S
   ranked(reader, json!({"query": q, "limit": 100, "execution": "bm25"}))
 }
 
+// ---------------------------------------------------------------------------------------------
+// Multi-block family: corpora long enough for posting lists to span several blocks whose
+// boundaries fall on different documents for different terms.
+
+/// (tf of a, tf of b, tf of c); every body is padded with the filler word `z` to `MB_LEN` tokens
+/// (equal lengths keep block bounds tight, so block-max checks do fail) unless `padded` is false.
+pub const MB_LEN: usize = 8;
+
+/// weak a-only, weak a+b, weak a+c, medium a+b (fills the heap early), strong a+b+c, b-only
+/// (shifts b's block boundaries against a's).
+pub const MB_SHAPES6: [(usize, usize, usize); 6] = [(1, 0, 0), (1, 1, 0), (1, 0, 1), (2, 2, 0), (3, 3, 1), (0, 1, 0)];
+/// the two-term core of the alphabet, for longer corpora
+pub const MB_SHAPES4: [(usize, usize, usize); 4] = [(1, 0, 0), (1, 1, 0), (2, 2, 0), (3, 3, 0)];
+
+pub fn mb_world(shapes: &[(usize, usize, usize)], seq: &[usize], layout: &[usize], padded: bool) -> World {
+  let docs: Vec<Value> = seq
+    .iter()
+    .enumerate()
+    .map(|(i, s)| {
+      let (a, b, c) = shapes[*s];
+      let mut words: Vec<&str> = Vec::new();
+      words.extend(std::iter::repeat("a").take(a));
+      words.extend(std::iter::repeat("b").take(b));
+      words.extend(std::iter::repeat("c").take(c));
+      while padded && words.len() < MB_LEN {
+        words.push("z");
+      }
+      json!({"_id": id_of(i), "body": words.join(" "), "pop": 1 + (i % 3)})
+    })
+    .collect();
+  World::new("body+kw+pop+n+f", schema_json(), docs).with_layout(layout.to_vec())
+}
+
+/// Every sequence of `n` shapes (every placement pattern), one segment and optionally the split in
+/// the middle.
+pub fn mb_worlds(shapes: &[(usize, usize, usize)], n: usize, split: bool, padded: bool) -> Vec<World> {
+  let idx: Vec<usize> = (0..shapes.len()).collect();
+  let mut out = Vec::new();
+  for s in sequences(&idx, n, n) {
+    out.push(mb_world(shapes, &s, &[n], padded));
+    if split {
+      out.push(mb_world(shapes, &s, &[n / 2, n - n / 2], padded));
+    }
+  }
+  out
+}
+
+/// two- and three-term queries: query strings and boosted bool-should
+pub fn mb_queries() -> Vec<Value> {
+  vec![
+    json!("a b"),
+    json!({"type": "bool", "should": [term_b("a", 2.0), term("b")]}),
+    json!("a b c"),
+    json!({"type": "bool", "should": [term_b("a", 2.0), term("b"), term_b("c", 0.5)]}),
+  ]
+}
+
+pub const MB_BLOCKS: [usize; 5] = [1, 2, 3, 4, 5];
+
+/// Block structure of the query's terms in one world for a block size: (some term's postings span
+/// at least two blocks in some segment, two terms of one segment have different block-end sets).
+fn mb_block_structure(info: &WorldInfo, q: &Value, bs: usize) -> (bool, bool) {
+  let mut terms = BTreeSet::new();
+  scoring_terms(q, &mut terms);
+  let (mut multi, mut differ) = (false, false);
+  for seg in &info.segs {
+    let mut ends: Vec<Vec<usize>> = Vec::new();
+    for t in &terms {
+      let plist: Vec<usize> = seg.docs.iter().enumerate().filter(|(_, d)| d.tf.contains_key(t)).map(|(i, _)| i).collect();
+      if plist.is_empty() {
+        continue;
+      }
+      if plist.len() > bs {
+        multi = true;
+      }
+      let mut e: Vec<usize> = plist.chunks(bs).map(|c| *c.last().unwrap()).collect();
+      e.dedup();
+      ends.push(e);
+    }
+    for i in 0..ends.len() {
+      for j in i + 1..ends.len() {
+        if ends[i] != ends[j] && (ends[i].len() >= 2 || ends[j].len() >= 2) {
+          differ = true;
+        }
+      }
+    }
+  }
+  (multi, differ)
+}
+
 pub const BLOCKS: [usize; 5] = [1, 2, 3, 128, 300];
 
 pub fn run(ctx: &Ctx) -> i32 {
@@ -1206,6 +1296,82 @@ pub fn run(ctx: &Ctx) -> i32 {
   let outcomes: Mutex<BTreeSet<String>> = Mutex::new(BTreeSet::new());
   let log = FailLog::new();
   let failing_trees: Mutex<BTreeMap<String, BTreeSet<usize>>> = Mutex::new(BTreeMap::new());
+  // ---- multi-block family (run first, own budget, so that a busy machine never caps it away)
+  let mut ws_mb: Vec<World> = Vec::new();
+  if quick {
+    ws_mb.extend(mb_worlds(&MB_SHAPES6, 5, false, true));
+    ws_mb.extend(mb_worlds(&MB_SHAPES4, 6, true, true));
+  } else {
+    ws_mb.extend(mb_worlds(&MB_SHAPES6, 5, true, true));
+    ws_mb.extend(mb_worlds(&MB_SHAPES6, 5, false, false));
+    ws_mb.extend(mb_worlds(&MB_SHAPES6, 6, true, true));
+    ws_mb.extend(mb_worlds(&MB_SHAPES4, 7, true, true));
+    ws_mb.extend(mb_worlds(&MB_SHAPES4, 8, true, true));
+    ws_mb.extend(mb_worlds(&MB_SHAPES4, 9, false, true));
+    ws_mb.extend(mb_worlds(&MB_SHAPES4, 10, false, true));
+  }
+  let mb_qs = mb_queries();
+  let deadline_mb = budget(if quick { 20.0 } else { 420.0 });
+  let mb_cases = AtomicU64::new(0);
+  let mb_live = AtomicU64::new(0);
+  let mb_multi = AtomicU64::new(0);
+  let mb_differ = AtomicU64::new(0);
+  let (done_mb, capped_mb) = par_sweep(&ws_mb, &rep, deadline_mb, |wi, world| {
+    let idx = world.build();
+    let reader = idx.reader().expect("reader");
+    let info = WorldInfo::new(world);
+    let mut local_out: BTreeSet<String> = BTreeSet::new();
+    for (qi, q) in mb_qs.iter().enumerate() {
+      let Ok(full) = full_ranking(&reader, q) else {
+        log.add(None, vec![0, wi as u64, qi as u64], || format!("{} q={}: exhaustive run failed", world.describe(), q), || Case { query: q.clone(), limit: 100, exec: "bm25".into(), block: None }.to_json(world));
+        continue;
+      };
+      let structure: Vec<(bool, bool)> = MB_BLOCKS.iter().map(|b| mb_block_structure(&info, q, *b)).collect();
+      for limit in 1..=3usize {
+        let live = full.len() > limit;
+        let mut cases = vec![Case { query: q.clone(), limit, exec: "wand".into(), block: None }];
+        for b in MB_BLOCKS {
+          cases.push(Case { query: q.clone(), limit, exec: "bmw".into(), block: Some(b) });
+        }
+        let Ok(want) = ranked(&reader, cases[0].req("bm25", limit)) else {
+          log.add(None, vec![0, wi as u64, qi as u64, limit as u64], || format!("{} q={} limit={}: bm25 run failed", world.describe(), q, limit), || cases[0].to_json(world));
+          continue;
+        };
+        for (ci, c) in cases.iter().enumerate() {
+          evals.fetch_add(1, Ordering::Relaxed);
+          mb_cases.fetch_add(1, Ordering::Relaxed);
+          if ci >= 1 && live {
+            mb_live.fetch_add(1, Ordering::Relaxed);
+            let (multi, differ) = structure[ci - 1];
+            if multi {
+              mb_multi.fetch_add(1, Ordering::Relaxed);
+            }
+            if differ {
+              mb_differ.fetch_add(1, Ordering::Relaxed);
+            }
+          }
+          match check_case(&reader, &info, c, &want, &full) {
+            Verdict::Same => {
+              local_out.insert(format!("multi-block: same/{}", if live { "heap-full" } else { "all-returned" }));
+            }
+            Verdict::TiePermuted => {
+              tie_perm.fetch_add(1, Ordering::Relaxed);
+              local_out.insert("multi-block: equal-up-to-near-ties".into());
+            }
+            Verdict::Fail(sig, what) => {
+              local_out.insert(format!("multi-block: differs[{}]", sig.unwrap_or("-")));
+              log.add(sig, vec![0, wi as u64, qi as u64, limit as u64, ci as u64], || format!("{} q={} limit={} exec={} block={:?}: {}", world.describe(), q, limit, c.exec, c.block, what), || c.to_json(world));
+            }
+          }
+        }
+        if live {
+          nontrivial.fetch_add(1, Ordering::Relaxed);
+        }
+      }
+    }
+    outcomes.lock().extend(local_out);
+  });
+
   let (done, capped) = par_sweep(&ws, &rep, deadline, |wi, world| {
     let idx = world.build();
     let reader = idx.reader().expect("reader");
@@ -1217,7 +1383,7 @@ pub fn run(ctx: &Ctx) -> i32 {
         Ok(f) => f,
         Err(e) => {
           let c = Case { query: q.clone(), limit: 100, exec: "bm25".into(), block: None };
-          log.add(None, vec![wi as u64, qi as u64], || format!("{} q={}: exhaustive run failed: {e}", world.describe(), q), || c.to_json(world));
+          log.add(None, vec![1, wi as u64, qi as u64], || format!("{} q={}: exhaustive run failed: {e}", world.describe(), q), || c.to_json(world));
           continue;
         }
       };
@@ -1234,7 +1400,7 @@ pub fn run(ctx: &Ctx) -> i32 {
         let want = match ranked(&reader, cases[0].req("bm25", limit)) {
           Ok(w) => w,
           Err(e) => {
-            log.add(None, vec![wi as u64, qi as u64, limit as u64], || format!("{} q={} limit={}: bm25 run failed: {e}", world.describe(), q, limit), || cases[0].to_json(world));
+            log.add(None, vec![1, wi as u64, qi as u64, limit as u64], || format!("{} q={} limit={}: bm25 run failed: {e}", world.describe(), q, limit), || cases[0].to_json(world));
             continue;
           }
         };
@@ -1251,7 +1417,7 @@ pub fn run(ctx: &Ctx) -> i32 {
             Verdict::Fail(sig, what) => {
               local_out.insert(format!("differs[{}]", sig.unwrap_or("-")));
               failing_trees.lock().entry(format!("{}/{}", sig.unwrap_or("-"), c.exec)).or_default().insert(qi);
-              log.add(sig, vec![wi as u64, qi as u64, limit as u64, ci as u64], || format!("{} q={} limit={} exec={} block={:?}: {}", world.describe(), q, limit, c.exec, c.block, what), || c.to_json(world));
+              log.add(sig, vec![1, wi as u64, qi as u64, limit as u64, ci as u64], || format!("{} q={} limit={} exec={} block={:?}: {}", world.describe(), q, limit, c.exec, c.block, what), || c.to_json(world));
             }
           }
         }
@@ -1276,7 +1442,7 @@ pub fn run(ctx: &Ctx) -> i32 {
     outcomes.lock().extend(local_out);
   });
   worlds_done.store(done, Ordering::Relaxed);
-  timed_out.store(capped, Ordering::Relaxed);
+  timed_out.store(capped || capped_mb, Ordering::Relaxed);
   log.flush(&rep);
   rep.add_evals(evals.load(Ordering::Relaxed));
   let to = timed_out.load(Ordering::Relaxed);
@@ -1290,6 +1456,14 @@ pub fn run(ctx: &Ctx) -> i32 {
     "worlds" => ws.len(),
     "worlds_completed" => worlds_done.load(Ordering::Relaxed),
     "world_space" => if quick { "every sequence of <=3 of 8 document shapes x every 1-2 segment layout, plus every multiset of 4 shapes (ascending and descending order) x {1 segment, split in the middle}" } else { "every sequence of <=5 of 8 document shapes x every 1-2 segment layout, plus every multiset of 6 shapes (ascending and descending order) x every 1-2 segment layout" },
+    "multi_block_family" => json!({
+      "worlds": ws_mb.len(), "worlds_completed": done_mb,
+      "world_space": if quick { "every sequence (placement pattern) of 5 documents over 6 shapes (tf a,b,c): (1,0,0) (1,1,0) (1,0,1) (2,2,0) (3,3,1) (0,1,0), 1 segment; of 6 documents over the 4 shapes (1,0,0) (1,1,0) (2,2,0) (3,3,0), 1 segment and 3+3; bodies padded with a filler word to 8 tokens" } else { "every sequence of 5 (padded and unpadded) and 6 documents over the 6 shapes, of 7-10 documents over the 4 shapes; 1 segment and the middle split (n <= 8)" },
+      "queries": mb_qs, "limits": [1, 2, 3], "executions": "wand, bmw with bmw_block_size 1..5",
+      "cases": mb_cases.load(Ordering::Relaxed),
+      "bmw_cases_with_full_heap": mb_live.load(Ordering::Relaxed),
+      "of_which_a_query_term_spans_2_or_more_blocks": mb_multi.load(Ordering::Relaxed),
+      "of_which_two_query_terms_have_different_block_boundaries": mb_differ.load(Ordering::Relaxed)}),
     "query_trees" => trees.len(),
     "limits" => format!("1..min({max_limit}, docs)"),
     "bmw_block_sizes" => blocks.to_vec(),
